@@ -11,6 +11,10 @@ package main
 //              differs from the configured one.
 //   invalid-expression:compile   a registered expression is not a regular expression.
 //
+//              Request hosts may name a port (txn.host is the Host / x-lunar-host
+//              header as sent): whatever reading of "host:port" the engine uses to
+//              select a filter, the expression registered for that filter must find
+//              the subject with the port in it (root-cause class bypass:host-port).
 // The classifier (root cause of a bypass) uses its own URL splitter.
 
 import (
@@ -212,6 +216,12 @@ func classifyBypass(pattern string, methods []string, cls int, m, u string,
 	pp := monSplit(pattern)
 	if cls == 2 {
 		return "bypass:empty-segment"
+	}
+	// the port named in the request host is the cause when the same request
+	// without it is managed (the engine looked the URL up by its host name, the
+	// registered expression knows the declared URL only)
+	if name, port, rest := hostPort(u); port != "" && managedFn(m, name+rest) {
+		return "bypass:host-port"
 	}
 	// the verb is the cause when the same URL is managed for a default verb
 	if len(methods) == 0 && !defaultMethods[m] && managedFn("GET", u) {
